@@ -48,6 +48,17 @@ def main():
         pr = dict(pr, ok=False, error="development is not clean (admitted proof / declared axiom / disabled check): %s" % dirty[:10])
     bad_axioms = [t for t in pr["theorems"] if not vlib.axioms_ok(t)]
     proofs_ok = pr["ok"] and not bad_axioms and len(pr["theorems"]) == len(pr.get("stated", [])) and len(pr["theorems"]) > 0
+    # 2b. the function-level tie: theorems about the code GENERATED from the source on this run (props/<id>G.v over coq/refine/*)
+    adv = None
+    if os.path.exists(os.path.join(vlib.COQ, "props", pid + "G.v")):
+        if b.get("failed_advisory"):
+            adv = {"ok": False, "theorems": [], "stated": [], "error": "files of the function-level tie failed to build: %s" % b["failed_advisory"]}
+        elif broken_units:
+            adv = {"ok": False, "theorems": [], "stated": [], "error": "not attempted: the property's own theorems did not build"}
+        else:
+            adv = vlib.compile_props(pid + "G")
+        adv["bad_axioms"] = [t for t in adv["theorems"] if not vlib.axioms_ok(t)]
+        adv["re_established"] = bool(adv["ok"] and not adv["bad_axioms"] and len(adv["theorems"]) == len(adv.get("stated", [])) and adv["theorems"] and not dirty)
     model_ok = b["driver_ok"] and not b["failed_model"]
 
     known = [k for k in vlib.load_known() if k["property"] == pid and k.get("status") == "known"]
@@ -103,6 +114,21 @@ def main():
             violations.append({"kind": "correspondence-broken", "no_failing_input_found": True,
                                "what": "model and implementation disagree on %d case(s); first (shrunk) cases attached" % len(new_disagreements),
                                "cases": new_disagreements[:5]})
+    # the function-level tie (translated code refined to the model; translated code run against the implementation) is the stronger of two
+    # ties.  When it is not re-established on this tree while the model theorems, the executable model and the correspondence all hold, the
+    # property is still decided (hand-written model + correspondence); the run says so (TIE-DEGRADED) instead of raising an alarm, unless
+    # VERIF_STRICT_TIE=1 asks for the strict reading.
+    degraded = None
+    tie_broken = (adv is not None and not adv["re_established"]) or bool(ctx.advisory_disagreements)
+    if tie_broken and not violations:
+        degraded = {"property": pid, "what": "the function-level tie (code translated from /repo's source on this run, refined to the model / run against the implementation) "
+                                             "is not re-established on this tree; the property is decided by the model theorems and the correspondence run, which hold",
+                    "theorem_file": "coq/props/%sG.v" % pid if adv is not None else None,
+                    "error": (adv or {}).get("error", ""), "bad_axioms": (adv or {}).get("bad_axioms", []), "failed_files": b.get("failed_advisory", []),
+                    "generated_code_disagreements": ctx.advisory_disagreements[:5]}
+        if os.environ.get("VERIF_STRICT_TIE", "") == "1":
+            violations.append(dict(degraded, kind="function-level-tie-broken", no_failing_input_found=True))
+            degraded = None
     for k in ctx.known_hits:
         print("KNOWN-FINDING: property=%s %s" % (pid, k))
 
@@ -113,6 +139,12 @@ def main():
         "trusted_base": mod.TRUSTED_BASE,
         "theorems": pr["theorems"],
         "generated_units": b["gen"],
+        "function_level_tie": None if adv is None and not ctx.advisory_cases else {
+            "theorem_file": "coq/props/%sG.v" % pid if adv is not None else None,
+            "stated": len((adv or {}).get("stated", [])), "checked": len((adv or {}).get("theorems", [])) if (adv or {}).get("re_established") else 0,
+            "theorems": (adv or {}).get("theorems", []), "re_established": bool(adv is None or adv["re_established"]) and not ctx.advisory_disagreements,
+            "generated_code_cases": ctx.advisory_cases, "generated_code_disagreements": len(ctx.advisory_disagreements),
+            "policy": "not binding: see DESIGN.md section 4 (VERIF_STRICT_TIE=1 makes it binding)"},
         "correspondence": ctx.corr_stats,
         "search": ctx.search_stats,
         "evaluations": ctx.evaluations,
@@ -135,11 +167,17 @@ def main():
         tail = " no-failing-input-found" if all(v.get("no_failing_input_found") for v in violations) else ""
         print("VIOLATION property=%s replay=%s%s" % (pid, rp, tail))
         return 1
+    dg = os.path.join(vlib.OUT, "degraded_%s_%d.json" % (pid, seed))
+    if degraded:
+        vlib.write_json(dg, degraded)
+        print("TIE-DEGRADED property=%s detail=%s (function-level refinement not re-established on this tree; model theorems and correspondence hold)" % (pid, dg))
+    elif os.path.exists(dg):
+        os.remove(dg)
     stale = os.path.join(vlib.OUT, "replay_%s_%d.json" % (pid, seed))
     if os.path.exists(stale):
         os.remove(stale)
-    print("OK property=%s tier=%s theorems=%d corr_cases=%s search_evals=%s wall=%.0fs" % (
-        pid, tier, len(pr["theorems"]), ctx.corr_stats.get("cases"), ctx.evaluations, time.time() - t0))
+    print("OK property=%s tier=%s theorems=%d%s corr_cases=%s search_evals=%s wall=%.0fs" % (
+        pid, tier, len(pr["theorems"]), ("+%d" % len(adv["theorems"]) if adv and adv["re_established"] else ""), ctx.corr_stats.get("cases"), ctx.evaluations, time.time() - t0))
     return 0
 
 
@@ -150,6 +188,8 @@ class Ctx:
         self.pid, self.tier, self.seed, self.rng, self.known, self.model_ok = pid, tier, seed, rng, known, model_ok
         self.failures = []        # concrete failing inputs on the implementation (not known)
         self.disagreements = []   # model != implementation
+        self.advisory_disagreements = []   # code generated from the source (function level) != implementation
+        self.advisory_cases = 0
         self.known_hits = []
         self.corr_stats = {"cases": 0, "disagreements": 0}
         self.search_stats = {}
@@ -169,17 +209,21 @@ class Ctx:
         m = vlib.run_model(cases)
         i = vlib.run_impl(cases, **(impl_kw or {}))
         nd = drift = 0
+        generated = label.startswith("generated-code")     # the driver runs the function TRANSLATED from the source, not the model
+        sink = self.advisory_disagreements if generated else self.disagreements
+        if generated:
+            self.advisory_cases += len(cases)
         for c, mo, io in zip(cases, m, i):
             a, b_ = (project(c, mo), project(c, io)) if project else (mo, io)
             if a != b_:
                 nd += 1
-                if len(self.disagreements) < 20:
-                    self.disagreements.append({"case": c, "model": mo[:2000], "impl": io[:2000], "label": label,
+                if len(sink) < 20:
+                    sink.append({"case": c, "model": mo[:2000], "impl": io[:2000], "label": label,
                                                "projected_model": str(a)[:500], "projected_impl": str(b_)[:500]})
             elif mo != io:
                 drift += 1      # raw outputs differ but not in what this property observes: reported, not a violation
         self.corr_stats["cases"] += len(cases)
-        self.corr_stats["disagreements"] += nd
+        self.corr_stats["disagreements"] += 0 if generated else nd
         self.corr_stats["raw_output_drift"] = self.corr_stats.get("raw_output_drift", 0) + drift
         self.corr_stats.setdefault("by_label", {})[label] = {"cases": len(cases), "disagreements": nd, "raw_output_drift": drift,
                                                              "projection": (project.__doc__ or project.__name__) if project else "identity (full output)"}
